@@ -230,8 +230,9 @@ class Runtime(Stream):
             yield {"what": "fft", "n": n, "seed": rng.randint(0, 10**6)}
         for n in (1, 2, 3, 4, 6, 8):
             yield {"what": "symfft", "n": n, "seed": rng.randint(0, 10**6)}
-        for _ in range(40):
-            yield {"what": "matpow", "n": rng.randint(0, 12), "seed": rng.randint(0, 10**6)}
+        for kind in ("wrapper", "inplace", "matrix", "ndarray", "ndarray-default-one"):
+            for n in range(0, 21 if tier == "quick" else 70):
+                yield {"what": "matpow", "kind": kind, "n": n, "seed": rng.randint(0, 10**6)}
         for _ in range(60 if tier == "quick" else 600):
             yield {"what": "polymap", "n": 0, "seed": rng.randint(0, 10**6)}
         for a in range(-6, 7):
@@ -276,22 +277,55 @@ class Runtime(Stream):
             if not err < 1e-9 * max(1, n):
                 return Failure("symfft-vs-dft", f"n={n}: max error {err}", pl)
         elif w == "matpow":
-            m = np.array([[rng.randint(-2, 2) for _ in range(3)] for _ in range(3)], dtype=object)
-            got = al.integer_power(m, pl["n"], one=np.eye(3, dtype=object).astype(int).astype(object)) \
-                if False else None
-            # integer_power multiplies with `*`; use a wrapper so that `*` is the matrix product
-            class M:
+            # integer_power in monoids whose elements are MUTABLE objects: the routine may use `*`
+            # and `*=` as it likes, but the value must be x multiplied by itself n times (computed
+            # here from pristine copies), whatever the operand's type does for `*=`
+            base = [[rng.randint(-2, 2) for _ in range(3)] for _ in range(3)]
+            kind = pl.get("kind", "wrapper")
+            n = pl["n"]
+
+            def fresh():
+                return np.array(base, dtype=object)
+
+            class M:                      # `*` only (immutable style): `*=` falls back to `*`
                 def __init__(self, a):
                     self.a = a
 
                 def __mul__(self, o):
-                    return M(self.a.dot(o.a))
-            got = al.integer_power(M(m), pl["n"], one=M(np.eye(3, dtype=int).astype(object))).a
-            want = np.eye(3, dtype=int).astype(object)
-            for _ in range(pl["n"]):
-                want = want.dot(m)
-            if not (got == want).all():
-                return Failure("matpow", f"integer_power on a matrix, n={pl['n']}", pl)
+                    return type(self)(self.a.dot(o.a))
+
+            class MI(M):                  # in-place `*=` (mutates the left operand, returns it)
+                def __imul__(self, o):
+                    self.a = self.a.dot(o.a)
+                    return self
+
+            eye = np.eye(3, dtype=int).astype(object)
+            if kind in ("wrapper", "inplace"):
+                cls = M if kind == "wrapper" else MI
+                got = al.integer_power(cls(fresh()), n, one=cls(eye.copy())).a
+                want = eye.copy()
+                for _ in range(n):
+                    want = want.dot(fresh())
+            elif kind == "matrix":
+                got = np.asarray(al.integer_power(np.matrix(fresh()), n, one=np.matrix(eye.copy())))
+                want = eye.copy()
+                for _ in range(n):
+                    want = want.dot(fresh())
+            elif kind == "ndarray":       # elementwise product, `*=` in place
+                got = al.integer_power(fresh(), n, one=np.ones((3, 3), dtype=object))
+                want = np.ones((3, 3), dtype=object)
+                for _ in range(n):
+                    want = want * fresh()
+            else:                         # "ndarray-default-one": `one` left at its default 1
+                if n == 0:
+                    return None
+                got = al.integer_power(fresh(), n)
+                want = np.ones((3, 3), dtype=object)
+                for _ in range(n):
+                    want = want * fresh()
+            if not (np.asarray(got) == want).all():
+                return Failure("matpow", f"integer_power on a mutable operand ({kind}), n={n}: "
+                               f"{np.asarray(got).tolist()} instead of {want.tolist()}", pl)
         elif w == "polymap":
             from pymbolic import evaluate, var
             from pymbolic.mapper.substitutor import substitute
